@@ -132,8 +132,9 @@ class _Slot:
             pass
 
 
-def run_conditions(jobs, workdir, repo, nproc=16, log=None):
-    """jobs: list of dict(idx, modname, timeout, path_timeout).  Returns {idx: result}"""
+def run_conditions(jobs, workdir, repo, nproc=16, log=None, budget=None):
+    """jobs: list of dict(idx, modname, timeout, path_timeout).  Returns {idx: result}
+    budget: wall-clock seconds after which no further condition is started (the rest is reported SKIPPED = not decided)"""
     ctx = mp.get_context('spawn')
     nproc = max(1, min(nproc, len(jobs)))
     slots = [_Slot(ctx, workdir, repo) for _ in range(nproc)]
@@ -189,6 +190,13 @@ def run_conditions(jobs, workdir, repo, nproc=16, log=None):
                     s.deadline = s.t0 + job['timeout'] * 2.5 + 30
                     s.parent.send(job)
                     progressed = True
+            if budget and pending and time.time() - t_start > budget:
+                if log:
+                    log(f'  ... wall budget of {budget:.0f}s used up: {len(pending)} conditions not started')
+                for job in pending:
+                    results[job['idx']] = dict(idx=job['idx'], msgs=[('SKIPPED', 'wall budget')], paths=0, wall=0, cpu=0, z3n=0,
+                                               z3t=0.0, reached=0)
+                pending.clear()
             if not progressed:
                 time.sleep(0.01)
             if log and time.time() - last_log > 30:
